@@ -343,6 +343,16 @@ func (w *wkbEmitter) all(b []byte) {
 	}
 	fmt.Fprintf(w.out, "hex s%s\n", hex.EncodeToString([]byte(h)))
 	fmt.Fprintf(w.out, "wkbr %d x%s\n", []int{1, 3, 7, 16, 4096}[w.r.Intn(5)], hex.EncodeToString(b))
+	w.stream(b, []string{"E", "D", "U", "C", "X"}[w.r.Intn(5)])
+}
+
+// stream: wkb.Read on a reader that is not a slice: pieces of varying size, empty reads, and a
+// sticky error (EOF or the reader's own) alone or together with the last piece
+func (w *wkbEmitter) stream(b []byte, end string) {
+	if w.r.Bool() {
+		end += "z"
+	}
+	fmt.Fprintf(w.out, "wkbs %s %d x%s\n", end, []int{1, 2, 3, 5, 16, 1000, 70000}[w.r.Intn(7)], hex.EncodeToString(b))
 }
 
 var inflated = func(n int) []uint32 {
@@ -472,6 +482,12 @@ func genWKB(out *bufio.Writer, r *vproto.Rng, tier string) {
 			w.all(e.b)
 			for k := 0; k < len(e.b); k++ {
 				w.wkb(e.b[:k])
+				if le {
+					// the reader fails at EVERY offset, in every way
+					for _, end := range []string{"E", "D", "U", "C", "X"} {
+						w.stream(e.b[:k], end)
+					}
+				}
 			}
 			w.cutMutations(e, []uint32{4097, 1 << 16, 1 << 20})
 		}
@@ -676,6 +692,23 @@ func genWKB(out *bufio.Writer, r *vproto.Rng, tier string) {
 	// 7. hex strings that are not hex
 	for _, s := range []string{"", "0", "0g", "zz", "0102000000", "01 02", "0x01", "010", "０１", "01\n", "0102000000FFFFFFFF", "\x00\x01", "ÿÿ"} {
 		fmt.Fprintf(out, "hex s%s\n", hex.EncodeToString([]byte(s)))
+	}
+	// which error: the FIRST non-digit decides (first or second digit of a pair, or the odd trailing
+	// byte); an odd length is reported only when every byte is a digit
+	for _, s := range []string{"g", "0g", "g0", "gg", "00g", "0g0", "g00", "00zz", "0z0y", "0y0z0", "012", "01g", "0g1", "g01", "xyz", "0102000000f", "0102000000g",
+		"010200000g00", "01020000000g", "0G", "0:", "0/", "0@", "0`", "0\x00", "\x000", "0\xff1", "AbCdEf0", "abcdefg", "ABCDEFG", "0 ", " 0"} {
+		fmt.Fprintf(out, "hex s%s\n", hex.EncodeToString([]byte(s)))
+	}
+	for i := 0; i < 60*scale; i++ {
+		n := r.Intn(30)
+		b := make([]byte, n)
+		for j := range b {
+			b[j] = "0123456789abcdefABCDEF"[r.Intn(22)]
+		}
+		for k := r.Intn(3); k > 0 && n > 0; k-- {
+			b[r.Intn(n)] = []byte{'g', 'G', ' ', 0, 0xff, '/', ':', '@', '`', 'x', byte(r.U64())}[r.Intn(11)]
+		}
+		fmt.Fprintf(out, "hex s%s\n", hex.EncodeToString(b))
 	}
 	for i := 0; i < 40*scale; i++ {
 		n := r.Intn(40)
